@@ -455,6 +455,13 @@ Definition valued (a : assoc) (ks : list kid) : Prop :=
 (* no text child of association a / zero-length text arrays cannot be written *)
 Definition text_free (a : assoc) (ks : list kid) : Prop := forall k, In k ks -> kassoc k = a -> kkind k <> KText.
 
+Lemma text_blocked_false fl k (v : vals) : k <> KText \/ 0 < length v -> text_blocked fl k v = false.
+Proof.
+  intros H. unfold text_blocked, text_empty. destruct H as [H|H].
+  - destruct k; try reflexivity. congruence.
+  - destruct v; [simpl in H; lia|]. rewrite andb_false_r. reflexivity.
+Qed.
+
 Lemma text_empty_false k (v : vals) : k <> KText \/ 0 < length v -> text_empty k v = false.
 Proof.
   unfold text_empty. intros [H|H].
@@ -479,7 +486,7 @@ Proof.
       * assert (Lv : length v = N) by (apply (HL k v); [left; reflexivity|exact Ea'|exact Ev]).
         unfold np_delete in H. rewrite Lv, HN in H.
         rewrite format_length_eq in H by (rewrite select_length; rewrite ?keep_mask_length; auto).
-        destruct (text_empty (kkind k) (select (keep_mask N I') v)); [discriminate|].
+        destruct (text_blocked fl (kkind k) (select (keep_mask N I') v)); [discriminate|].
         destruct (rcv fl I a (count (keep_mask N I')) r) as [r' e] eqn:R. injection H as E1 E2; subst ks' e.
         constructor; [|apply IH; auto].
         unfold rcv_kid. simpl. rewrite Ev. repeat split; auto.
@@ -514,7 +521,7 @@ Proof.
     + assert (Lv : length v = N) by (apply (HL k v); [left; reflexivity|exact Ea|exact Ev]).
       unfold np_delete. rewrite Lv, HN.
       rewrite format_length_eq by (rewrite select_length; rewrite ?keep_mask_length; auto).
-      rewrite text_empty_false; [eexists; reflexivity|].
+      rewrite text_blocked_false; [eexists; reflexivity|].
       destruct HT as [HT|HT]; [left; apply (HT k); [left; reflexivity|exact Ea]|right].
       rewrite select_length by (rewrite keep_mask_length; auto). exact HT.
     + destruct HS as [HS|HS]; [rewrite HS; eexists; reflexivity|].
@@ -886,7 +893,7 @@ Proof.
     rewrite fill_masked_all_true by lia. symmetry. apply select_all_true; lia. }
   destruct (negb (n <? length v) && dkind_eqb (kkind k) KText && negb (f_copy_text fl)); [discriminate|].
   rewrite Hsel. rewrite format_length_eq by (rewrite select_length; lia).
-  destruct (text_empty (kkind k) (select m v)); [discriminate|].
+  destruct (text_blocked fl (kkind k) (select m v)); [discriminate|].
   intros H; injection H as <-. simpl. auto.
 Qed.
 
@@ -1579,11 +1586,11 @@ Proof.
   destruct (n <? length v) eqn:Lt.
   - apply Nat.ltb_lt in Lt.
     destruct (format_length n (kkind k) (kassoc k) (select m v)) as [v''|] eqn:F; [|discriminate].
-    destruct (text_empty (kkind k) v''); [discriminate|]. intros H; injection H as <-. simpl.
+    destruct (text_blocked fl (kkind k) v''); [discriminate|]. intros H; injection H as <-. simpl.
     split; [exact E|]. split; [intros _; exists v''; auto|intros H; lia].
   - apply Nat.ltb_ge in Lt.
     destruct (format_length n (kkind k) (kassoc k) (fill_masked (ndv (kkind k)) m v)) as [v''|] eqn:F; [|discriminate].
-    destruct (text_empty (kkind k) v''); [discriminate|]. intros H; injection H as <-. simpl.
+    destruct (text_blocked fl (kkind k) v''); [discriminate|]. intros H; injection H as <-. simpl.
     split; [exact E|]. split; [intros H; lia|]. intros _.
     assert (Lf : length (fill_masked (ndv (kkind k)) m v) = length v) by (apply fill_masked_length; exact E).
     assert (T : exists tail, v'' = fill_masked (ndv (kkind k)) m v ++ tail).
